@@ -32,6 +32,7 @@ pub const SIG_D10_SCALAR: &str = "otlp/panic-on-non-string-map-key/scalar";
 pub const SIG_D10_COMPOSITE: &str = "otlp/panic-on-non-string-map-key/composite";
 pub const SIG_D11_DUP: &str = "otlp-metrics/duplicate-attribute-key";
 pub const SIG_D11_UNIT: &str = "otlp-metrics/unit-not-first-value";
+/// (historical: before fix e29f7b7 a composite key produced a truncated line; now the event is refused)
 pub const SIG_FILE_COMPOSITE: &str = "file/invalid-json-line/composite-map-key";
 pub const SIG_FILE_TAGGED: &str = "file/invalid-json-line/tagged-map-key";
 pub const SIG_NULL_DROP: &str = "otlp-proto/array-drops-null-element";
@@ -287,6 +288,19 @@ fn structured_nodes(ev: &Ev) -> impl Iterator<Item = &Node> {
     })
 }
 
+/// Shape of the values a sink actually streams: the FIRST occurrence of every key (file writer and OTLP
+/// encoders enumerate `props.dedup()`; shadowed duplicates are never written). Failure signatures are
+/// chosen from this, never from values that cannot have influenced the output.
+pub fn written_shape(ev: &Ev) -> node::Shape {
+    let mut s = node::Shape::default();
+    for (_, pv) in ev.dedup() {
+        if let PV::Node { node, cap: Cap::Sval | Cap::Serde | Cap::Prim } = pv {
+            s.merge(node::shape(node));
+        }
+    }
+    s
+}
+
 pub fn event_shape(ev: &Ev) -> node::Shape {
     let mut s = node::Shape::default();
     for n in structured_nodes(ev) {
@@ -359,6 +373,50 @@ pub fn classify(ev: &Ev, cx: &mut Cx) -> node::Shape {
     cx.class_if(ev.props.iter().any(|p| matches!(p.val, PV::Node { cap: Cap::Display | Cap::Debug, .. })), "capture-text");
     cx.class_if(matches!(ev.extent, Ext::Range(..)), "extent-range");
     cx.class_if(matches!(ev.extent, Ext::None), "extent-none");
+    // physical layout of the property list
+    let plan = ev.plan();
+    if ev.layout != event::Layout::default() {
+        // collection index of every property: own groups, then ONE ambient collection (the frame is a
+        // single flattened map however many pushes built it)
+        let mut coll = vec![usize::MAX; ev.props.len()];
+        let mut unique = Vec::new();
+        for (gi, (r, kind)) in plan.own.iter().enumerate() {
+            for i in r.clone() {
+                coll[i] = gi;
+            }
+            unique.push(*kind != event::GKind::Slice);
+        }
+        if plan.runtime {
+            for r in &plan.frames {
+                for i in r.clone() {
+                    coll[i] = plan.own.len();
+                }
+            }
+            unique.push(true);
+        }
+        let straddling: Vec<&str> = ev
+            .props
+            .iter()
+            .enumerate()
+            .filter(|(i, p)| ev.props[..*i].iter().enumerate().any(|(j, q)| q.key == p.key && coll[j] != coll[*i]))
+            .map(|(_, p)| p.key.as_str())
+            .collect();
+        let all_unique = unique.len() >= 2 && unique.iter().all(|u| *u);
+        cx.class_if(plan.own.len() >= 2, "layout-and-props");
+        cx.class_if(!plan.frames.is_empty(), "layout-runtime-frame");
+        cx.class_if(plan.runtime, "layout-via-runtime");
+        if all_unique && !straddling.is_empty() {
+            cx.class("duplicate-straddles-unique-collections");
+            cx.class_if(
+                straddling.iter().any(|k| matches!(*k, "lvl" | "trace_id" | "span_id" | "span_parent" | "metric_unit")),
+                "straddle-well-known-key",
+            );
+            cx.class_if(
+                ev.props.iter().enumerate().any(|(i, p)| coll[i] == plan.own.len() && plan.runtime && ev.props[..i].iter().enumerate().any(|(j, q)| q.key == p.key && coll[j] < plan.own.len())),
+                "straddle-own-shadows-ambient",
+            );
+        }
+    }
     cx.nontrivial(s.depth >= 2 || dup || s.non_string_key() || s.wide_int || s.non_finite);
     s
 }
@@ -433,13 +491,8 @@ pub fn check_file(ev: &Ev, shape: &node::Shape, bytes: &[u8], cx: &mut Cx, rende
     };
     if text.is_empty() {
         // (what a writer that refuses the event instead of corrupting the line would produce)
-        let sig = if shape.json_bad_key {
-            "file/event-dropped/composite-map-key"
-        } else if shape.tagged_key {
-            "file/event-dropped/tagged-map-key"
-        } else {
-            "file/event-missing"
-        };
+        // a written map with a key sval_json refuses explains a refused event; nothing else does
+        let sig = if shape.json_bad_key { "file/event-dropped/composite-map-key" } else { "file/event-missing" };
         return cx.fail(sig, "nothing was written for the event");
     }
     vassert!(cx, text.ends_with('\n'), "file/missing-separator", "record does not end with a newline: {}", brief(text));
@@ -449,13 +502,10 @@ pub fn check_file(ev: &Ev, shape: &node::Shape, bytes: &[u8], cx: &mut Cx, rende
     let jv = match jsonp::parse(line) {
         Ok(j) => j,
         Err(e) => {
-            let sig = if shape.json_bad_key {
-                SIG_FILE_COMPOSITE
-            } else if shape.tagged_key {
-                SIG_FILE_TAGGED
-            } else {
-                "file/invalid-json-line"
-            };
+            // the only listed cause of an invalid line is a written map with a tagged key and a labelled
+            // value (sval_json's stale internal-tagging state); a composite key makes the writer refuse the
+            // event, so it cannot explain a line that WAS written
+            let sig = if shape.tagged_key_labelled_value { SIG_FILE_TAGGED } else { "file/invalid-json-line" };
             return cx.fail(sig, format!("line is not valid JSON ({e}): {}", brief(line)));
         }
     };
@@ -1033,7 +1083,9 @@ pub const ALL_SINKS: Sinks = Sinks { file: true, otlp: true, term: true };
 
 /// The whole oracle for one event.
 pub fn check_event(ev: &Ev, cx: &mut Cx, sinks_on: Sinks) -> Res {
-    let shape = classify(ev, cx);
+    classify(ev, cx);
+    // signatures are decided by what is actually written (first occurrence per key)
+    let shape = written_shape(ev);
     let mut rendered: Vec<(String, String)> = Vec::new();
 
     if sinks_on.file || sinks_on.otlp {
